@@ -23,6 +23,10 @@ Sub-checks
                  infinity, y = 0 on even-order curves, scalars 0..2n+1) vs the affine reference
   rpa            generate_private_address(irk) resolves under irk; under an unrelated key the
                  resolver's answer equals an independent recomputation of ah
+  history        per primitive (e, aes_cmac, each toolbox function, long-lived EccKey objects,
+                 generate_private_address + long-lived resolvers): all call sequences of length <= 3
+                 over {valid K1, valid K2, K1 other data, malformed-length data/key, repeat}; every
+                 valid call vs its history-free reference (malformed calls: any outcome, ignored)
   rpa_history    every sequence (length <= 3 quick / 4 thorough) of resolve() calls on ONE
                  long-lived AddressResolver over {genuine RPA, other prand, unrelated IRK with the
                  same prand, flipped hash bit, RPA of a second key, static, identity, generated}
@@ -1373,11 +1377,177 @@ def w_rpa_history(arg):
 
 
 # ---------------------------------------------------------------------------
+# history: results must not depend on what was computed before
+# ---------------------------------------------------------------------------
+IGN = ('ignored',)  # result of a malformed call: anything (value or exception) is acceptable
+BAD_LENGTHS = (0, 3, 6, 15, 17, 32)
+# toolbox function -> (index of the key argument, index of a data argument)
+TB_ROLES = {'ah': (0, 1), 'c1': (0, 1), 's1': (0, 1), 'f4': (2, 0), 'f5': (0, 1), 'f6': (0, 1), 'g2': (2, 0), 'h6': (0, 1), 'h7': (0, 1)}
+HISTORY_FAMILIES = ['e', 'aes_cmac'] + list(TB_ROLES) + ['ecdh', 'rpa']
+
+
+def history_ops(family: str, backend: str):
+    """Alphabet of one family: {label: (thunk, expected)}.  Must be called with the toolbox
+    bound to the back end (use_backend) and, for 'rpa', bc.secrets replaced.  `expected` is the
+    history-free reference value, or IGN for calls with a malformed argument."""
+    import bumble.crypto as bc
+
+    mod = backends()[backend]
+    ops = {}
+    if family == 'e':
+        k1, k2 = RH(_KEY16), bytes(range(1, 17))
+        d1, d2 = RH('708194') + bytes(13), b'\xff' * 16
+        for lab, k, d in (('v1', k1, d1), ('v2', k2, d1), ('v1b', k1, d2)):
+            ops[lab] = (lambda k=k, d=d: mod.e(k, d), R.sm_e(k, d))
+        for n in BAD_LENGTHS:
+            ops[f'badD{n}'] = (lambda n=n: mod.e(k1, bytes(range(n))), IGN)
+        for n in (0, 17):
+            ops[f'badK{n}'] = (lambda n=n: mod.e(bytes(n), d1), IGN)
+    elif family == 'aes_cmac':
+        k1, k2 = H(RFC4493_KEY), bytes(range(1, 17))
+        msg = H(RFC4493_MSG)
+        for lab, k, m in (('v1', k1, msg[:40]), ('v2', k2, msg[:40]), ('v1b', k1, msg[:16])):
+            ops[lab] = (lambda k=k, m=m: mod.aes_cmac(m, k), R.aes_cmac(k, m))
+        for n in BAD_LENGTHS:  # every message length is valid for CMAC: these are checked too
+            ops[f'len{n}'] = (lambda n=n: mod.aes_cmac(msg[:n], k1), R.aes_cmac(k1, msg[:n]))
+        for n in (0, 15, 17):
+            ops[f'badK{n}'] = (lambda n=n: mod.aes_cmac(msg[:40], bytes(n)), IGN)
+    elif family in TB_ROLES:
+        ki, di = TB_ROLES[family]
+        base = [b for (fn, b, _w) in toolbox_vectors().values() if fn == family][0]
+        fn = getattr(bc, family)
+
+        def with_(i, v, j=None, w=None):
+            a = list(base)
+            a[i] = v
+            if j is not None:
+                a[j] = w
+            return tuple(a)
+
+        k2 = bytes(range(1, len(base[ki]) + 1))
+        d2 = b'\xff' * len(base[di])
+        for lab, args in (('v1', tuple(base)), ('v2', with_(ki, k2)), ('v1b', with_(di, d2))):
+            ops[lab] = (lambda args=args: fn(*args), REF_FN[family](*args))
+        for n in BAD_LENGTHS:
+            if n != len(base[di]):
+                ops[f'badD{n}'] = (lambda n=n: fn(*with_(di, bytes(range(n)))), IGN)
+        for n in (0, 17):
+            if n != len(base[ki]):
+                ops[f'badK{n}'] = (lambda n=n: fn(*with_(ki, bytes(n))), IGN)
+    elif family == 'ecdh':
+        I = lambda t: int.from_bytes(H(t), 'big')
+        ds = P256_SETS[0]
+        # ONE long-lived key object per private key (cached properties, OpenSSL key handles)
+        key1 = mod.EccKey.from_private_key_bytes(H(ds['priv_a']))
+        key2 = mod.EccKey.from_private_key_bytes(H(ds['priv_b']))
+        g2 = R.p256_mul(2)
+        ops['v1'] = (lambda: key1.dh(H(ds['pub_bx']), H(ds['pub_by'])), H(ds['dhkey']))
+        ops['v2'] = (lambda: key2.dh(H(ds['pub_ax']), H(ds['pub_ay'])), H(ds['dhkey']))
+        ops['v1b'] = (lambda: key1.dh(b32(g2[0]), b32(g2[1])), b32(R.p256_mul(I(ds['priv_a']), g2)[0]))
+        ops['pub1'] = (lambda: (key1.x, key1.y), (H(ds['pub_ax']), H(ds['pub_ay'])))
+        for n in (0, 17, 33):
+            ops[f'badD{n}'] = (lambda n=n: key1.dh(bytes(range(n)), H(ds['pub_by'])), IGN)
+        ops['badOff'] = (lambda: key1.dh(H(ds['pub_bx']), b32(I(ds['pub_by']) ^ 1)), IGN)
+        ops['badZero'] = (lambda: key1.dh(bytes(32), bytes(32)), IGN)
+    elif family == 'rpa':
+        from bumble.hci import Address
+        from bumble.smp import AddressResolver
+
+        fs = bc.secrets
+        irk1, irk2 = RH(_KEY16), bytes(range(16))
+        id1, id2 = Address('C0:11:22:33:44:55'), Address('C0:AA:BB:CC:DD:EE')
+        res1, res2 = AddressResolver([(irk1, id1)]), AddressResolver([(irk2, id2)])  # long-lived
+        aes = {irk1: R.FastAES(irk1[::-1]), irk2: R.FastAES(irk2[::-1])}
+        ref_ah = lambda irk, prand: aes[irk].encrypt(bytes(13) + prand[::-1])[-3:][::-1]
+        bid = lambda a: None if a is None else bytes(a)
+
+        def gen(irk, raw):
+            fs.next = bytes(raw) + b'\x01\x02\x03'
+            a = Address.generate_private_address(irk)
+            return (bytes(a), bid(res1.resolve(a)), bid(res2.resolve(a)))
+
+        def gen_expected(irk, raw):
+            prand = _prand_of(raw)
+            h = ref_ah(irk, prand)
+            return (h + prand, bytes(id1) if ref_ah(irk1, prand) == h else None, bytes(id2) if ref_ah(irk2, prand) == h else None)
+
+        r1, r2 = (0x94, 0x81, 0x30), (0x0A, 0x0B, 0x0C)
+        for lab, irk, raw in (('v1', irk1, r1), ('v2', irk2, r1), ('v1b', irk1, r2)):
+            ops[lab] = (lambda irk=irk, raw=raw: gen(irk, raw), gen_expected(irk, raw))
+        fixed = Address(ref_ah(irk1, _prand_of(r2)) + _prand_of(r2), Address.RANDOM_DEVICE_ADDRESS)
+        ops['res1'] = (lambda: (bid(res1.resolve(fixed)), bid(res2.resolve(fixed))), (bytes(id1), bytes(id2) if ref_ah(irk2, _prand_of(r2)) == bytes(fixed)[:3] else None))
+        for n in (0, 6, 15, 17, 32):  # e.g. the whole 6-byte address where the 3-byte prand belongs
+            ops[f'badD{n}'] = (lambda n=n: bc.ah(irk1, bytes(range(0x4A, 0x4A + n))), IGN)
+        ops['badK15'] = (lambda: Address.generate_private_address(irk1[:15]), IGN)
+    else:
+        raise ValueError(family)
+    return ops
+
+
+def history_sequences(labels, max_len):
+    alpha = list(labels) + ['rep']
+    for n in range(1, max_len + 1):
+        yield from itertools.product(alpha, repeat=n)
+
+
+def history_exec(st, family, backend, ops, labels, log):
+    """Run labels in order (appending to log); report the first valid call whose result
+    differs from its history-free reference."""
+    for lab in labels:
+        thunk, want = ops[lab]
+        out = attempt(thunk)
+        log.append(lab)
+        if want is IGN:
+            st.count('malformed_calls')
+            st.count('malformed_calls_raising' if out[0] == 'exc' else 'malformed_calls_returning')
+            continue
+        st.count('valid_calls_checked')
+        if out != ('ok', want):
+            tail = log[-40:]
+            st.violation(
+                'history',
+                {'family': family, 'backend': backend, 'op': lab},
+                f'[{backend} back end] {family}: valid call {lab!r} gives {show(out)} after the call history {tail[:-1]}; '
+                f'history-free reference gives {show(want)} (malformed calls in the history are outside the domain, this call is inside it)',
+                {'family': family, 'backend': backend, 'ops': tail},
+            )
+            return False
+    return True
+
+
+def w_history(arg):
+    family, backend, max_len, part, nparts = arg
+    import bumble.crypto as bc
+
+    st = core.Stats('history')
+    fs = _FixedSecrets()
+    saved = bc.secrets
+    bc.secrets = fs
+    try:
+        with use_backend(backends()[backend]):
+            ops = history_ops(family, backend)
+            seqs = list(history_sequences(list(ops), max_len))[part::nparts]
+            log = []
+            for seq in seqs:
+                labels = [(seq[0] if seq[0] != 'rep' else 'v1') if lab == 'rep' else lab for lab in seq]
+                st.case((family, backend, seq), nontrivial=len(seq) > 1)
+                st.add('families', (family, backend))
+                if any(ops[l][1] is IGN for l in labels[:-1]) and ops[labels[-1]][1] is not IGN:
+                    st.count('valid_call_after_malformed_sequences')
+                history_exec(st, family, backend, ops, labels, log)
+            if part == 0:
+                st.samples.append({'family': family, 'backend': backend, 'alphabet': list(ops) + ['rep'], 'max_len': max_len})
+    finally:
+        bc.secrets = saved
+    return st
+
+
+# ---------------------------------------------------------------------------
 # dispatcher / run
 # ---------------------------------------------------------------------------
 WORKERS = {
     'spec_vectors': w_spec_vectors, 'aes_e': w_aes_e, 'aes_cmac': w_aes_cmac, 'toolbox': w_toolbox, 'p256': w_p256,
-    'p256_invalid': w_p256_invalid, 'ec_small_dh': w_ec_small_dh, 'ec_small_arith': w_ec_small_arith, 'rpa': w_rpa, 'rpa_history': w_rpa_history,
+    'p256_invalid': w_p256_invalid, 'ec_small_dh': w_ec_small_dh, 'ec_small_arith': w_ec_small_arith, 'rpa': w_rpa, 'rpa_history': w_rpa_history, 'history': w_history,
 }  # fmt: skip
 
 
@@ -1496,6 +1666,14 @@ def build_items(ctx):
                     for j, part in enumerate(parts):
                         (heavy if not quick else light).append(('rpa', (backend, i, part, 0, 0, j == 0)))
                     info[f'rpa_{backend}_irk{i}'] = f'{len(raws)} structured raw draws'
+    if want('history'):
+        for backend in ('builtin', 'cryptography'):
+            for family in HISTORY_FAMILIES:
+                nparts = 8 if (family == 'ecdh' and backend == 'builtin') else (2 if quick else 4)
+                for part in range(nparts):
+                    (heavy if family == 'ecdh' else light).append(('history', (family, backend, 3, part, nparts)))
+        info['history_families'] = HISTORY_FAMILIES
+
     if want('rpa_history'):
         seqs = list(hist_sequences(3 if quick else 4))
         info['rpa_history_sequences'] = len(seqs)
@@ -1534,7 +1712,8 @@ def run(ctx: core.Context) -> int:
         + '; ec_small_arith: all ordered point pairs / all scalars 0..2n+1 in several Jacobian representations; '
         'rpa: raw prand draws ('
         + ('13824 structured (all b0 x 6 b1 x 9 raw b2 incl. every top-bit pattern) per IRK and back end' if ctx.quick else 'all 2^22 prands for the spec IRK with both back ends and for a second IRK with cryptography; 13824 structured + 2^16 for the other (IRK, back end) combinations')
-        + '); rpa_history: all sequences of <= '
+        + '); history: per primitive family (13) and back end, all call sequences of length <= 3 over valid calls with 2 keys / other data / malformed argument lengths {0,3,6,15,17,32} / repeat, each valid result vs a history-free reference'
+        '; rpa_history: all sequences of <= '
         + ('3' if ctx.quick else '4')
         + ' queries over a 9-symbol alphabet on one resolver instance x 3 key configurations x 2 prand pairs x 2 back ends, every answer vs a history-free recomputation'
         '; aes_cmac/toolbox keys include a deterministic search for keys whose L and K1 first byte take every boundary value {00,01,7F,80,81,FE,FF} x all lengths 0..80, and all 256 values x '
@@ -1605,6 +1784,16 @@ def replay(v: core.Violation):
     elif v.check == 'ec_small_arith_mismatch':
         r = w_ec_small_arith((c['p'], c['b'], False))
         return [x.message for x in r.violations if x.key == v.key]
+    elif v.check == 'history':
+        import bumble.crypto as bc
+
+        fs = _FixedSecrets()
+        saved, bc.secrets = bc.secrets, fs
+        try:
+            with use_backend(bes[c['backend']]):
+                history_exec(st, c['family'], c['backend'], history_ops(c['family'], c['backend']), c['ops'], [])
+        finally:
+            bc.secrets = saved
     elif v.check == 'rpa_history':
         r = w_rpa_history((c['backend'], c['config'], c['draws'], [tuple(c['seq'])]))
         return [x.message for x in r.violations if x.key == v.key]
